@@ -271,7 +271,7 @@ def local_checked(f, b, i, name, idempotent_ok=True):
     def uses_name(x):
         return x.get("k") == "ref" and x.get("n") in aliases and x.get("rk") in ("l", "sl", "p")
 
-    checks, rets, others = [], [], []
+    checks, rets, others, redefs = [], [], [], []
     for bb, ii, r in f.roots():
         par = None
         has = [x for x in walk(r) if uses_name(x)]
@@ -296,8 +296,8 @@ def local_checked(f, b, i, name, idempotent_ok=True):
             elif p is not None and p.get("k") == "ret":
                 rets.append((bb, ii))
             elif p is not None and p.get("k") == "asg" and strip_casts(p.get("lhs")) is u:
-                # re-definition: path ends here (treated as a barrier)
-                checks.append((bb, ii))
+                # re-definition: a barrier for the flow, but not a test of the value
+                redefs.append((bb, ii))
             elif p is not None and p.get("k") == "cond" and par.get(id(p), {}).get("k") == "ret":
                 rets.append((bb, ii))
             elif _zero_test(par, q, p):
@@ -323,7 +323,7 @@ def local_checked(f, b, i, name, idempotent_ok=True):
             return False, "result stored in `%s` is never tested nor returned" % name
         return False, "result stored in `%s` is used without any %s test" % (name, ISERR_SUFFIX)
     if others_r:
-        ok = f.must_pass(via_roots=checks_r + rets_r, starts=start, targets=others_r)
+        ok = f.must_pass(via_roots=checks_r + rets_r + redefs, starts=start, targets=others_r)
         if not ok:
             return False, "`%s` is used before it is tested with %s on some path" % (name, ISERR_SUFFIX)
     return True, "tested before use"
